@@ -13,6 +13,7 @@ import (
 	"os"
 	"io"
 	"runtime"
+	"strings"
 	"sync"
 	"sync/atomic"
 	"testing"
@@ -43,6 +44,10 @@ type Ending struct {
 	Kind    string `json:"kind"`
 	K       int    `json:"k"`
 	Closers int    `json:"closers,omitempty"`
+	// ErrKind is what an injected fail-* error looks like: "" a generic error, "timeout-forever" a
+	// permanent error reporting Timeout()==true and Temporary()==false on every call (QUIC idle
+	// timeout), "eof" a clean io.EOF.
+	ErrKind string `json:"err_kind,omitempty"`
 }
 
 type Case struct {
@@ -536,6 +541,10 @@ func runCase(c Case, boundScale int) (*failure, *obs) {
 		return &failure{key: "C02/harness/unknown-ending", detail: kind}, o
 	}
 
+	kindKey := kind
+	if c.Ending.ErrKind != "" {
+		kindKey += ":" + c.Ending.ErrKind
+	}
 	// after the first close / failure: both ends observe closure within bounded time
 	if !waitFor(bound, func() bool { return isDone(A.readDone) && isDone(B.readDone) }) {
 		who := ""
@@ -546,7 +555,7 @@ func runCase(c Case, boundScale int) (*failure, *obs) {
 			who += "B"
 		}
 		fill()
-		return &failure{key: "C02/no-closure/" + kind + "/end=" + who, timing: true,
+		return &failure{key: "C02/no-closure/" + kindKey + "/end=" + who, timing: true,
 			detail: fmt.Sprintf("%v after the %s event end %s still has no EOF/error on Read: %s", time.Since(t0).Round(time.Millisecond), kind, who, state())}, o
 	}
 	last := A.doneAt
@@ -559,7 +568,7 @@ func runCase(c Case, boundScale int) (*failure, *obs) {
 	// ... and the bridge run ends (runBridgeLifecycle forgets the tunnel when Start returns)
 	if !waitFor(bound, startDone) {
 		fill()
-		return &failure{key: "C02/tunnel-not-forgotten/" + r.name + "/" + kind, timing: true,
+		return &failure{key: "C02/tunnel-not-forgotten/" + r.name + "/" + kindKey, timing: true,
 			detail: fmt.Sprintf("%v after both ends saw closure %s: %s", time.Since(t0).Round(time.Millisecond), r.endedWhat, state())}, o
 	}
 	fill()
@@ -647,7 +656,7 @@ func capBucket(n int) string {
 }
 
 func caseSig(c Case) string {
-	return fmt.Sprintf("%v|%s|%s|%d|%s|%s|%v|%s|%s|%d|%d|%v", c.Mini, sizeBucket(c.LenAB), sizeBucket(c.LenBA), c.Limit, c.Ending.Kind, c.Attach, c.Stream,
+	return fmt.Sprintf("%v|%s|%s|%d|%s|%s|%v|%s|%s|%d|%d|%v", c.Mini, sizeBucket(c.LenAB), sizeBucket(c.LenBA), c.Limit, c.Ending.Kind+c.Ending.ErrKind, c.Attach, c.Stream,
 		capBucket(c.SrvReadCapA), capBucket(c.SrvReadCapB), len(c.WritesAB), len(c.WritesBA), c.DataWithEOF)
 }
 
@@ -746,6 +755,13 @@ func check(t vkit.TB, c Case) {
 	}
 	vkit.Case(class, nt, caseSig(c))
 	vkit.Sample(class, summarize(c))
+	if strings.HasPrefix(c.Ending.Kind, "fail-") {
+		k := c.Ending.ErrKind
+		if k == "" {
+			k = "generic"
+		}
+		vkit.Class("feat:injected-error=" + k)
+	}
 	vkit.Class("feat:" + limClass(c.Limit))
 	vkit.Class("feat:attach=" + c.Attach)
 	if c.Stream {
@@ -926,6 +942,9 @@ func genEnding(t *rapid.T, c Case) Ending {
 		e.K = rapid.IntRange(0, c.LenAB+c.LenBA).Draw(t, "k")
 		e.Closers = rapid.IntRange(1, 3).Draw(t, "closers")
 	}
+	if strings.HasPrefix(e.Kind, "fail-") {
+		e.ErrKind = rapid.SampledFrom([]string{"", "timeout-forever", "timeout-forever", "eof"}).Draw(t, "errKind")
+	}
 	return e
 }
 
@@ -987,6 +1006,9 @@ func TestSession(t *testing.T) {
 		c := genCase(t, []int64{0, 0, 0, 10 * 1024 * 1024, 64 * 1024, 4096})
 		c.Mini = true
 		c.Stream = true
+		if rapid.Bool().Draw(t, "sourceSpeaksFirst") {
+			c.Attach = "after-first-write" // bytes of the source are pending when the target attaches
+		}
 		check(t, c)
 	})
 }
